@@ -121,7 +121,7 @@ def _normalised_event_loop(fi: FuncInfo) -> ast.For | None:
 
 def _branches(loop: ast.For) -> tuple[dict[str, list[ast.stmt]], list[ast.stmt]]:
     out: dict[str, list[ast.stmt]] = {}
-    chain = next((s for s in loop.body if isinstance(s, ast.If)), None)
+    chain = next((s for s in loop.body if isinstance(s, ast.If) and "EventType." in unparse(s.test)), None)
     orelse: list[ast.stmt] = []
     while chain is not None:
         t = chain.test
@@ -156,15 +156,43 @@ def handler_sibling_agreement(ctx: Ctx) -> None:
         "START": ("start", ["self.clazz", "self.queue", "self.objects", "_.tag", "_.attrib"]),
         "END": ("end", ["self.queue", "self.objects", "_.tag", "_.text", "_.tail"]),
     }
+    # the end of an element is delivered either directly in the END branch or - deferred until the next event, when the tail is complete -
+    # through the shared XmlHandler.end_element(element)
+    ee = ctx.repo.cls(f"{PAR}.mixins:XmlHandler").methods.get("end_element")
     for k, (br, _) in tables.items():
         fi = nat if k == "native" else lx
+        loop = loops[k]
         for ev, (meth, args) in want.items():
             calls = [c for s in br.get(ev, []) for c in calls_in(s) if unparse(c.func) == f"self.parser.{meth}"]
-            got = [anon_text(a, fi.node) for a in calls[0].args] if calls else []
-            ctx.ob(f"{k}: {ev} calls parser.{meth}({', '.join(args)}, ...)", len(calls) == 1 and got[:len(args)] == [A(x) for x in args], at=fi, node=calls[0] if calls else None,
+            where = fi
+            if ev == "END" and not calls and ee is not None:
+                # deferred form: END only remembers the element; every iteration first flushes the remembered element; so does the loop exit
+                pend = [st.targets[0].id for st in br.get("END", []) if isinstance(st, ast.Assign) and isinstance(st.targets[0], ast.Name) and unparse(st.value) == unparse(loop.target.elts[1])]
+                flush_top = bool(pend) and isinstance(loop.body[0], ast.If) and A(unparse(loop.body[0].test)) == A(f"{pend[0]} is not None") and any(
+                    A(unparse(c)) == A(f"self.end_element({pend[0]})") for c in calls_in(loop.body[0])) and any(
+                    isinstance(x, ast.Assign) and unparse(x.targets[0]) == pend[0] and isinstance(x.value, ast.Constant) and x.value.value is None for x in loop.body[0].body)
+                g = build_cfg(fi.node)
+                after = [n for n in g.stmts() if any(A(unparse(c)) == A(f"self.end_element({pend[0]})") for c in node_calls(n)) and not any(n.ast is x for x in ast.walk(loop))] if pend else []
+                head = g.node_of(loop)
+                tests_after = [t for t in g.nodes if t.kind == "test" and pend and A(unparse(t.ast)) == A(f"{pend[0]} is not None") and not any(t.ast is x for x in ast.walk(loop))]
+                flush_end = bool(after) and bool(tests_after) and head is not None and all(g.must_pass(head.id, r.id, [t.id for t in tests_after]) for r in g.returns()) \
+                    and all(g.only_if(a.id, tests_after[0].id, True) for a in after)
+                ctx.ob(f"{k}: END is deferred: the ended element is delivered through end_element() before the next event is dispatched and after the loop", flush_top and flush_end, at=fi,
+                       construct=f"{k} deferred end", msg="a deferred END is not flushed on every path: the last element (or every element) is never bound")
+                calls = [c for c in calls_in(ee.node) if unparse(c.func) == "self.parser.end"]
+                where = ee
+            got = [anon_text(a, where.node) for a in calls[0].args] if calls else []
+            ctx.ob(f"{k}: {ev} calls parser.{meth}({', '.join(args)}, ...)", len(calls) == 1 and got[:len(args)] == [A(x) for x in args], at=where, node=calls[0] if calls else None,
                    construct=f"{k} {ev} call", msg=f"arguments {got}")
         clears = [c for s in br.get("END", []) for c in calls_in(s) if isinstance(c.func, ast.Attribute) and c.func.attr == "clear"]
-        ctx.ob(f"{k}: the element is cleared after its END was delivered", len(clears) == 1, at=fi, construct=f"{k} clear", msg="memory / tail behaviour differs between handlers")
+        if not clears and ee is not None:
+            clears = [c for c in calls_in(ee.node) if isinstance(c.func, ast.Attribute) and c.func.attr == "clear"]
+            g2 = build_cfg(ee.node)
+            endn = [n for n in g2.stmts() if any(unparse(c.func) == "self.parser.end" for c in node_calls(n))]
+            ok_order = bool(endn) and all(g2.must_pass(g2.entry, g2.node_of(c).id, [e.id for e in endn]) for c in clears)
+            ctx.ob(f"{k}: the element is cleared only after its END was delivered", len(clears) == 1 and ok_order, at=ee, construct=f"{k} clear", msg="element cleared before its text / tail were read")
+        else:
+            ctx.ob(f"{k}: the element is cleared after its END was delivered", len(clears) == 1, at=fi, construct=f"{k} clear", msg="memory / tail behaviour differs between handlers")
         reg = [c for s in br.get("START_NS", []) for c in calls_in(s) if unparse(c.func) == "self.parser.register_namespace"]
         ok = len(reg) == 1 and len(reg[0].args) == 3 and anon_text(reg[0].args[0], fi.node) == "_"
         ctx.ob(f"{k}: START_NS registers (recorder, prefix or None, uri)", ok, at=fi, construct=f"{k} register", msg="namespace registration differs")
